@@ -69,8 +69,8 @@ def generate(rng, seed, part):
     n = rng.choice([0, 1, 3, 6, 12, 20])
     if klass in ("h1", "h2", "h3", "collection"):
         ndim = {"h1": 1, "h2": 2, "h3": 3, "collection": 1}[klass]
-        fams = ["static", "pairs", "numpy", "fixed", "exp", "adaptive"] if ndim == 1 else \
-            ["static", "numpy", "fixed", "exp", "adaptive", "pairs"]
+        fams = ["static", "pairs", "numpy", "fixed", "exp", "adaptive", "near"] if ndim == 1 else \
+            ["static", "numpy", "fixed", "exp", "adaptive", "pairs", "near"]
         axes = []
         adaptive = rng.random() < 0.2 and klass != "collection"
         for _ in range(ndim):
